@@ -7,7 +7,8 @@ def run(c):
         'crate `timer` modelled as a virtual timer: schedule_with_delay records (delay, closure, guard alive); dropping the Guard or the Timer kills the entry; the harness fires entries explicitly',
         'real-time behaviour of the timer thread ("not early", "earlier due time first") is a property of the timer crate and trusted',
     ]
-    c.outside += ['delay spellings (parse_duration_to_milliseconds: lexer + f64) — only delay_ms values are symbolic', 'timer/session thread interleavings', 'more than two pending sends per harness run']
+    c.outside += ['delay spellings other than <integer><unit> for the 10 unit spellings x 4 magnitudes of h_c16_units (fractions, exponents, blanks); delay_ms values are symbolic in the other harnesses', 'timer/session thread interleavings', 'more than two pending sends per harness run']
     c.run_m('h_c16_sched', expect_checks=(1601, 1602, 1603, 1604, 1605, 1606), expect_cover=(1601,), bounds={'delay_ms': 'any u64 >= 400 (incl. values that are negative as i64)', 'target': "'' / #_internal", 'cancel': 'none / this id / another id'})
     c.run_m('h_c16_two', expect_checks=(1620,), expect_cover=(1620,), bounds={'two pending sends': 'without ids / one id / two ids / the same id twice', 'cancel of the first': 'both'})
     c.run_m('h_c16_fire', expect_checks=(1610, 1611, 1612, 1613), expect_cover=(1610,), bounds={'param value': 'any i64, changed after the send executed', 'session dropped before due time': 'both'})
+    c.run_m('h_c16_units', expect_checks=(1630,), expect_cover=(1630,), bounds={'unit': 'd D h H m M s S ms MS', 'magnitude': '1, 2, 30, 1500'})
